@@ -339,6 +339,11 @@ def make_style_machine(ctx):
                                               "bg_color", "first_indent", "left_indent", "right_indent", "text_inset", "text_wrap"]))
             if attr == "bg_color" and self.ex.smodel[idx].get("bg_image") is not None:
                 return
+            if data.draw(st.integers(0, 9)) == 0:
+                # a new name for an existing style
+                new = f"Renamed {len(self.ex.log)}"
+                self.step("edit", idx=idx, attr="name", value=new)
+                return
             if data.draw(st.integers(0, 7)) == 0 and self.ex.smodel[idx].get("bg_color") is None:
                 # a (new) background image given to an existing style
                 png = bytes([137, 80, 78, 71, 13, 10, 26, 10]) + data.draw(st.binary(min_size=4, max_size=20))
